@@ -59,6 +59,29 @@ CONFIG = {
         "rule": "random histories of public-API calls (10 leaf kinds, at, with_span, multiple, flatten, clone, into_iter, add_sibling_alts) as stack programs of 1..28 ops; a case is non-trivial when some resulting error has len >= 2; distinct by case text",
         "assumptions": ["spans are opaque byte ranges; syn::Error conversion observed through syn::Error::into_iter"],
     },
+    "C09": {
+        "lean_modules": ["Darling.Props.C09"],
+        "streams": [
+            {"name": "c09", "n": {"quick": 8000, "thorough": 100000},
+             "trivial": lambda case, ans: False},
+        ],
+        "rule": "every enum receiver of the corpus (50: unit / newtype / struct variants, rename, rename_all x6, skip, word, allow_unknown_fields, flatten inside struct variants) x input forms built over a superset of its variant names (every rename-rule transform of every variant identifier and explicit renames): bare word, string of each name, single nested word, name-value, nested list, lists of 0/2/3 items, literal items, unknown names, plus the generated valid/invalid samples and the absent form; distinct by case text",
+        "assumptions": ["DistinctNames (effective names of selectable variants pairwise distinct) is a hypothesis of the uniqueness theorem"],
+    },
+    "C17": {
+        "lean_modules": ["Darling.Props.C17"],
+        "streams": [
+            {"name": "c17", "n": {"quick": 10000, "thorough": 200000},
+             "trivial": lambda case, ans: "Did you mean" not in ans},
+            {"name": "c17", "bin": "nosuggest", "n": {"quick": 10000, "thorough": 200000},
+             "args": {"quick": ["--no-sim"], "thorough": ["--no-sim"]},
+             "trivial": lambda case, ans: "Unknown field" not in ans},
+            {"name": "c04", "n": {"quick": 10000, "thorough": 100000},
+             "trivial": lambda case, ans: "sibling_alts" not in case and "unknown_alts" not in case},
+        ],
+        "rule": "c17: every receiver of the corpus (structs with skip / rename / flatten chains up to depth 3, enums) x unknown names at edit distance 0..3 from every name in scope (valid, skipped, enclosing, flattened-in; all rename transforms) injected into otherwise valid inputs, strsim scores as oracle rows; the same stream through a second build of the harness against darling without the `suggestions` feature (no score rows: the model must then produce no suggestion); c04: add_sibling_alts / unknown_field_with_alts in random API histories; non-trivial = a suggestion was produced (resp. an unknown-name error without the feature)",
+        "assumptions": ["the similarity measure (strsim::jaro_winkler) is a parameter: theorems hold for arbitrary scores; the threshold literal is regenerated from the source"],
+    },
     "C11": {
         "lean_modules": ["Darling.Props.C11"],
         "streams": [
